@@ -68,6 +68,17 @@ class Tap(object):
   next = __next__
 
 
+def adapt_input(P, x, how):
+  """ Transparent one-to-one adapters: the type a stage sees varies. """
+  if how == "stream":
+    return x if isinstance(x, P.ls.Stream) else P.ls.Stream(x)
+  if how == "hub1":
+    return P.ls.thub(x if isinstance(x, P.ls.Stream) else P.ls.Stream(x), 1)
+  if how == "gen":
+    return (v for v in x)
+  return x
+
+
 class _Starved(BaseException):
   """ A selector over an endless source never finds its next item. """
 
@@ -171,7 +182,12 @@ class C02(Property):
         if extra == "var-num":
           extra = ("num",) * (len(p["deltas"]) - 1)
         ins = [node] + [{"src": new_src(k)} for k in extra]
-        node = {"st": name, "p": p, "in": ins}
+        node = {"st": name, "p": p, "in": ins,
+                # how each input is handed over: as it is, wrapped in a
+                # Stream, through a single-use thub, or through a generator
+                "adapt": [W.weighted("adapt", [(5, "raw"), (2, "stream"),
+                                               (1, "hub1"), (1, "gen")])
+                          for _ in ins]}
         exact = exact and st["exact"]
         cur_type = st["prod"]
       return node, cur_type, exact
@@ -375,6 +391,8 @@ class C02(Property):
       st = STAGES[node["st"]]
       ins = [build(n, real, off) for n in node["in"]]
       if real:
+        ins = [adapt_input(P, x, how) for x, how in
+               zip(ins, node.get("adapt") or ["raw"] * len(ins))]
         return Tap(st["real"](P, ins, node["p"]), on_eof)
       return M.flagged(st["model"](ins, node["p"]))
 
